@@ -214,6 +214,12 @@ impl Cmd {
             Cmd::Local(i) => format!("LOCAL {}", i),
         }
     }
+    fn key(&self) -> Option<&str> {
+        match self {
+            Cmd::Get(k) | Cmd::Set(k, _) | Cmd::Incr(k) | Cmd::Append(k, _) | Cmd::Del(k) | Cmd::Rpush(k, _) | Cmd::Lrange(k) | Cmd::Llen(k) => Some(k),
+            _ => None,
+        }
+    }
     fn written_key(&self) -> Option<&str> {
         match self {
             Cmd::Set(k, _) | Cmd::Incr(k) | Cmd::Append(k, _) | Cmd::Del(k) | Cmd::Rpush(k, _) => Some(k),
@@ -383,6 +389,26 @@ async fn typed(st: &ShardedActorState, k: &str) -> Typed {
             o => Typed::Other(format!("{:?}", o)),
         },
         o => Typed::Other(format!("{:?}", o)),
+    }
+}
+
+/// the snapshot function of the model of the CURRENT code (`KV.backend.getReply`): what the
+/// connection remembers of a key at WATCH time is the reply of GET — `$-` for a missing key, the
+/// bytes of a string, and the constant WRONGTYPE error for every non-string value
+fn model_snapshot(t: &Typed) -> String {
+    match t {
+        Typed::Missing => "$-".into(),
+        Typed::Str(v) => format!("${}", hex(v)),
+        Typed::List(_) | Typed::Other(_) => "-wrongtype".into(),
+    }
+}
+
+fn kind(t: &Typed) -> &'static str {
+    match t {
+        Typed::Missing => "missing",
+        Typed::Str(_) => "string",
+        Typed::List(_) => "list",
+        Typed::Other(_) => "other",
     }
 }
 
@@ -644,12 +670,19 @@ impl World {
                             out.violation("C05:execabort:missing", "an input was refused at queue time but EXEC executed the queue", self.replay_json());
                         }
                         if let Some((k, t0, now, _)) = changed.iter().find(|c| c.3) {
-                            let class = match (t0, now) {
-                                (Typed::List(_), Typed::List(_)) => "non-string-key-change-undetected",
-                                _ => "string-key-change-undetected",
+                            // KNOWN cause, exactly: the key held a list at WATCH time and holds a
+                            // (different) list now, and the model of the current code predicts
+                            // "EXEC proceeds" (every GET-reply snapshot still matches).  Anything
+                            // else that is missed is a different defect.
+                            let model_aborts = changed.iter().any(|c| model_snapshot(&c.1) != model_snapshot(&c.2));
+                            let all_list_to_list = changed.iter().all(|c| matches!((&c.1, &c.2), (Typed::List(_), Typed::List(_))));
+                            let sig = if all_list_to_list && !model_aborts {
+                                "C05:watch:non-string-key-change-undetected".to_string()
+                            } else {
+                                format!("C05:watch:change-undetected:{}-to-{}{}", kind(t0), kind(now), if model_aborts { ":current-code-model-predicts-abort" } else { "" })
                             };
                             out.violation(
-                                &format!("C05:watch:{}", class),
+                                &sig,
                                 &format!("EXEC succeeded ({}) although watched key '{}' changed from {:?} (at WATCH) to {:?} (at EXEC)", show(&r, false), k, t0, now),
                                 self.replay_json(),
                             );
@@ -804,12 +837,104 @@ impl World {
             }
             allowed.push((reply, show_dump(&dump(&t).await)));
         }
-        if !allowed.contains(&observed) {
-            let touches_watched = foreign.iter().any(|c| c.written_key().map(|k| watched.iter().any(|(w, _)| w == k)).unwrap_or(false));
-            let sig = if touches_watched { "C05:exec:not-isolated:watched-key-changed-during-exec" } else { "C05:exec:not-isolated" };
+        // what the model of the CURRENT code predicts for exactly this schedule (`Txn.checkWatch`
+        // / `Txn.runQueue` transcribed over a twin executor): slot i is served right before
+        // EXEC's (i+1)-th store access, the watch comparison uses the GET-reply snapshot, stops
+        // at the first mismatch, the queue runs one command at a time
+        let predicted;
+        let mut compared: Vec<&String> = Vec::new(); // watched keys in comparison order (performed)
+        let mut invisible: Vec<String> = Vec::new(); // typed change the snapshot cannot see
+        let mut watch_failed = false;
+        {
+            let t = ShardedActorState::with_shards(1);
+            let mut tc = Conn::open(&t);
+            for f in &self.log {
+                tc.call(f).await;
+            }
+            let mut idx = 0usize;
+            let reply = if refused {
+                "-execabort".to_string()
+            } else {
+                for (k, t0) in &watched {
+                    for c in sched.get(idx).map(|v| v.as_slice()).unwrap_or(&[]) {
+                        tc.call(&c.args()).await;
+                    }
+                    idx += 1;
+                    compared.push(k);
+                    let now = typed(&t, k).await;
+                    if model_snapshot(&now) != model_snapshot(t0) {
+                        watch_failed = true;
+                        break;
+                    }
+                    if now != *t0 {
+                        invisible.push(k.clone());
+                    }
+                }
+                if watch_failed {
+                    "*-".to_string()
+                } else {
+                    let mut s = format!("*{}", queued.len());
+                    for q in &queued {
+                        for c in sched.get(idx).map(|v| v.as_slice()).unwrap_or(&[]) {
+                            tc.call(&c.args()).await;
+                        }
+                        idx += 1;
+                        s.push(' ');
+                        s.push_str(&show(&tc.call(&q.args()).await, false));
+                    }
+                    s
+                }
+            };
+            for slot in sched.iter().skip(idx) {
+                for c in slot {
+                    tc.call(&c.args()).await;
+                }
+            }
+            predicted = (reply, show_dump(&dump(&t).await));
+        }
+        let n_watch = compared.len();
+        let n_access = if refused { 0 } else if watch_failed { n_watch } else { n_watch + queued.len() };
+        if observed != predicted {
+            // NOT one of the listed causes, whatever it looks like
+            out.violation(
+                "C05:exec:concurrent-outcome-differs-from-current-code-model",
+                &format!("EXEC with the other client's commands served between its store accesses: reply {} store {}, but the connection state machine as modelled (watch comparison on GET replies first, then the queue one command at a time, foreign commands at the given slots) gives reply {} store {}", observed.0, observed.1, predicted.0, predicted.1),
+                self.replay_json(),
+            );
+        } else if !allowed.contains(&observed) {
+            // non-serializable AND exactly what the current code is known to do: name the cause
+            let qkeys: Vec<&str> = queued.iter().filter_map(|q| if let Inp::Cmd(c) = q { c.key() } else { None }).collect();
+            let mut cause_watched = false;
+            let mut cause_queue = false;
+            for (i, slot) in sched.iter().enumerate() {
+                for f in slot {
+                    let Some(k) = f.written_key() else { continue };
+                    // served after the comparison of watched key k and before the last queued command
+                    if let Some(c) = compared.iter().position(|w| w.as_str() == k) {
+                        if !watch_failed && i >= c + 1 && i < n_access {
+                            cause_watched = true;
+                        }
+                    }
+                    // served between two queued commands, on a key the queue touches
+                    if !watch_failed && i >= n_watch + 1 && i + 1 <= n_access && qkeys.contains(&k) {
+                        cause_queue = true;
+                    }
+                }
+            }
+            let sig = if cause_watched {
+                "C05:exec:not-isolated:watched-key-changed-during-exec"
+            } else if cause_queue {
+                "C05:exec:not-isolated"
+            } else if !invisible.is_empty() {
+                // a foreign write to a watched LIST key served before its comparison: same cause
+                // as the sequential finding (the snapshot is the constant WRONGTYPE error)
+                "C05:watch:non-string-key-change-undetected"
+            } else {
+                "C05:exec:not-serializable:no-modelled-cause"
+            };
             out.violation(
                 sig,
-                &format!("EXEC with the other client's commands served between its store accesses: reply {} store {} — no atomic EXEC at any point of the other client's sequence gives that (serial outcomes: {:?})", observed.0, observed.1, allowed),
+                &format!("EXEC with the other client's commands served between its store accesses: reply {} store {} — no atomic EXEC at any point of the other client's sequence gives that (serial outcomes: {:?}); the model of the current code predicts exactly this outcome", observed.0, observed.1, allowed),
                 self.replay_json(),
             );
         } else {
